@@ -10,6 +10,7 @@ import (
 	"net/url"
 	"os"
 	"path/filepath"
+	"runtime/pprof"
 	"sort"
 	"strings"
 	"sync"
@@ -156,13 +157,16 @@ func run(c *vf.Ctx) {
 				env = append(env, "GORACE=halt_on_error=0 exitcode=0 log_path="+raceP[i])
 			}
 			outF := filepath.Join(dir, "out.json")
-			_, code, ok := vf.RunWorkerOnce(cs.Race, "c23", []string{fmt.Sprint(i), fmt.Sprint(c.Seed), c.Tier, dir, outF}, env, filepath.Join(tmp, fmt.Sprintf("h%d.log", i)), 12*time.Minute)
+			_, code, ok := vf.RunWorkerOnce(cs.Race, "c23", []string{fmt.Sprint(i), fmt.Sprint(c.Seed), c.Tier, dir, outF}, env, filepath.Join(tmp, fmt.Sprintf("h%d.log", i)), 8*time.Minute)
 			var h histOut
 			b, err := os.ReadFile(outF)
 			if err != nil || json.Unmarshal(b, &h) != nil || !ok || code != 0 {
 				h = histOut{Spec: cs, SetupErr: fmt.Sprintf("worker exit=%d finished=%v err=%v", code, ok, err)}
 				if lb, e := os.ReadFile(filepath.Join(tmp, fmt.Sprintf("h%d.log", i))); e == nil {
-					c.Logf("case %d worker log tail: %s", i, tail(string(lb), 1500))
+					keep := filepath.Join(vf.Out, "replays", fmt.Sprintf("C23-%d-case%d-worker.log", c.Seed, i))
+					os.MkdirAll(filepath.Dir(keep), 0755)
+					os.WriteFile(keep, []byte(tail(string(lb), 1<<20)), 0644)
+					c.Logf("case %d: worker did not deliver a history; log kept in %s", i, keep)
 				}
 			}
 			outs[i] = h
@@ -427,20 +431,30 @@ func worker(args []string) {
 	fmt.Sscan(args[1], &seed)
 	tier, dir, outF := args[2], args[3], args[4]
 	c := &vf.Ctx{ID: "C23", Seed: seed, Tier: tier}
-	h := runHistory(c, caseNo, dir)
+	h, cl := runHistory(c, caseNo, dir)
 	b, _ := json.Marshal(h)
 	os.WriteFile(outF, b, 0644)
+	// Shutting the nodes down is not part of the property: the observations are
+	// already on disk, so a slow or stuck Close only costs a bounded wait.
+	done := make(chan struct{})
+	go func() { cl.Close(); close(done) }()
+	select {
+	case <-done:
+	case <-time.After(60 * time.Second):
+		logf("close watchdog: cluster Close still running after 60 s; goroutines follow")
+		pprof.Lookup("goroutine").WriteTo(os.Stderr, 1)
+	}
+	os.Exit(0)
 }
 
 func logf(format string, a ...any) {
 	fmt.Fprintf(os.Stderr, "[c23w %s] %s\n", time.Now().Format("15:04:05.000"), fmt.Sprintf(format, a...))
 }
 
-func runHistory(c *vf.Ctx, caseNo int, dir string) (h histOut) {
+func runHistory(c *vf.Ctx, caseNo int, dir string) (h histOut, cl *hcluster.Cluster) {
 	cs := genCase(c, caseNo)
 	h.Spec = cs
-	cl := hcluster.New(dir)
-	defer cl.Close()
+	cl = hcluster.New(dir)
 	cl.HTTP.Timeout = 75 * time.Second
 	opt := func(id string) hcluster.Options {
 		return hcluster.Options{ID: id, HeartbeatTimeout: 400 * time.Millisecond, ElectionTimeout: 400 * time.Millisecond, LeaderLease: 300 * time.Millisecond, NoSnapshotOnClose: true,
